@@ -44,6 +44,13 @@ Fixpoint tfiles_of (l : list (Z * fobs)) (t : Z) : fobs :=
   | (k, f) :: r => if k =? t then f else tfiles_of r t
   end.
 
+(** init segments of an asset by URI, from an association list (anything else: not there). *)
+Fixpoint inits_of (l : list (string * init_obs)) (u : string) : init_obs :=
+  match l with
+  | [] => IBad
+  | (k, i) :: r => if String.eqb k u then i else inits_of r u
+  end.
+
 Definition opt_eqb {A} (eqb : A -> A -> bool) (a b : option A) : bool :=
   match a, b with
   | Some x, Some y => eqb x y
